@@ -336,6 +336,8 @@ def impl_numbers(tokens):
                 out += [-1]          # the harness says the point was not quiescent
         elif c in "BE":
             pass
+        elif t == "!CRASH8":
+            out += [8, 8]            # assert "Queue can't be empty" + null dereference in Scheduler::GetNext
         elif t == "!ASSERT":
             out += [8]
         else:
@@ -360,11 +362,12 @@ def nontrivial_tokens(tokens):
 
 # ------------------------------------------------------------------------------------------------ the check
 
-def configs(rng, n):
+def configs(rng, n, loops=False):
+    """loops: the client has CAS loops; SetAtomicFailFrequency(1) makes every weak CAS fail (a livelock by configuration)"""
     out = []
     for i in range(n):
         out.append(dict(seed=rng.randrange(1, 2 ** 31), freq=rng.choice([1, 2, 3, 5, 8, 16]),
-                        cas=rng.choice([0, 1, 2, 4, 13]), pick=rng.choice([1, 2, 3, 10]),
+                        cas=rng.choice([0, 2, 4, 13] if loops else [0, 1, 2, 4, 13]), pick=rng.choice([1, 2, 3, 10]),
                         tick=rng.choice([1, 3, 10, 25]), slpt=rng.choice([1, 7, 100, 200])))
     return out
 
@@ -409,7 +412,7 @@ def main(ck):
         rows, out, err, rc = run_h(exe, args)
         c["args"], c["base"], c["rows"], c["rc"], c["out"], c["err"] = args, base, rows, rc, out, err
         rows2, out2, err2, rc2 = run_h(exe, base)      # a fresh process
-        c["rows_fresh"], c["rc_fresh"] = rows2, rc2
+        c["rows_fresh"], c["rc_fresh"], c["out_fresh"] = rows2, rc2, out2
         return c
 
     with concurrent.futures.ThreadPoolExecutor(max_workers=vlib.NPROC) as ex:
@@ -436,8 +439,27 @@ def main(ck):
     terms, metas = [], []
     need_draws = {}
     oracle_pairs = dict(same_process=0, fresh_process=0, restored=0)
+    crash_predicted = 0
     for c in cases:
         rows = c["rows"]
+        if c["rc"] == 70 and c["rc_fresh"] == 70 and "PARTIAL " in c["out"] and "PARTIAL " in c["out_fresh"]:
+            # the library crashed (a defect of the scheduler, not of reproducibility): the crash itself must be
+            # reproducible, and the model must predict it at the same token
+            pa = c["out"].split("PARTIAL ", 1)[1].split("\n")[0].split()
+            pb = c["out_fresh"].split("PARTIAL ", 1)[1].split("\n")[0].split()
+            evaluations += 2
+            if compare_pair("(b) run in a fresh process (both runs crash)", "rerun-fresh-process", c["name"], pa, 0, pb, 0,
+                            [cmdline(exe, c["base"])]):
+                oracle_pairs["fresh_process"] += 1
+            tail = ["!ASSERT", "P1", "D%d" % (2 * c["cfg"]["pick"])]
+            if pa[-3:] == tail:
+                c["tokens"] = pa[:-3] + ["!CRASH8"]
+                c["crashed"] = True
+                need_draws[c["cfg"]["seed"]] = max(need_draws.get(c["cfg"]["seed"], 0), sum(1 for t in pa if t[0] == "D") + 8)
+            else:
+                add_hit("%s: harness crashed in an unexpected place: ... %s" % (c["name"], " ".join(pa[-12:])), "crash",
+                        dict(harness="h_c17", commands=[cmdline(exe, c["base"])]))
+            continue
         if c["rc"] != 0 or len(rows) != 2 or c["rc_fresh"] != 0 or len(c["rows_fresh"]) != 1:
             add_hit("%s: harness crashed or gave no result (rc=%s/%s) %s" % (c["name"], c["rc"], c["rc_fresh"], (c["err"] or c["out"])[-400:]),
                     "crash", dict(harness="h_c17", commands=[cmdline(exe, c["args"])]))
@@ -465,7 +487,7 @@ def main(ck):
     # (c) restore from every recorded pair (fresh process), DSL programs with phases
     restore_jobs = []
     for c in cases:
-        if "tokens" not in c:
+        if "tokens" not in c or c.get("crashed"):
             continue
         for cp in c["rows"][0]["checkpoints"]:
             restore_jobs.append((c, cp))
@@ -514,7 +536,7 @@ def main(ck):
         return "{| freq := %d; casf := %d; pick := %d; tick := %d; slpt := %d |}" % (cf["freq"], cf["cas"], cf["pick"], cf["tick"], cf["slpt"])
 
     def add_term(c, tokens, ops, mode, t0, d, rc0, inj0, row, what):
-        dl = draws[c["cfg"]["seed"]][:row["rand_end"] + 8]
+        dl = draws[c["cfg"]["seed"]][:(row["rand_end"] if row else sum(1 for t in tokens if t[0] == "D")) + 8]
         terms.append("obs_N %s [%s] %d %d %d %d %d 200000 %s" % (
             cfg_term(c["cfg"]), "; ".join(str(x) for x in dl), mode, t0, d, rc0, inj0, to_coq(ops)))
         metas.append(dict(case=c, tokens=tokens, row=row, what=what))
@@ -523,7 +545,7 @@ def main(ck):
         if "tokens" not in c:
             continue
         toks = c["tokens"]
-        row = c["rows"][0]
+        row = None if c.get("crashed") else c["rows"][0]
         ib = start_index(toks)
         d = int(toks[ib][1:])
         if c["place"] == "driver":
@@ -536,7 +558,7 @@ def main(ck):
                 continue
             add_term(c, toks[ib:], c["ops"], 1, int(m.group(2)), d, 0, 0, row, "full")
         else:
-            add_term(c, toks, c["ops"], 0, row["time0"], d, 0, 0, row, "full")
+            add_term(c, toks, c["ops"], 0, row["time0"] if row else 0, d, 0, 0, row, "full")
     for c, cp, row, rt in restored_for_model[: (20 if quick else 200)]:
         # the restored run against the model started at the quiescent state (count, state) with the rest of the program
         ib = start_index(rt)
@@ -586,8 +608,15 @@ def main(ck):
             bad.append((label, c, "model predicts %s, implementation showed %s (number %d of %d/%d)" % (
                 mt[max(0, d - 8):d + 6], it[max(0, d - 8):d + 6], d, len(mt), len(it))))
             continue
-        exp_fin = 1
-        if trailer["finished"] != exp_fin or trailer["crashed"] != 0:
+        if row is None:
+            # the implementation crashed in Scheduler::GetNext on an empty queue: the model must say so at this token
+            if trailer["crashed"] != 1:
+                bad.append((label, c, "implementation crashed, the model does not predict a crash"))
+            else:
+                validated += 1
+                crash_predicted += 1
+            continue
+        if trailer["finished"] != 1 or trailer["crashed"] != 0:
             bad.append((label, c, "model did not finish (finished=%d crashed=%d)" % (trailer["finished"], trailer["crashed"])))
             continue
         if (trailer["live"] == 0) != bool(row["finished"]):
@@ -613,7 +642,7 @@ def main(ck):
     # ---------------------------------------------------------------- B. real clients: oracle only
     clients = ["pool", "strand", "timed", "coro", "mix"]
     n_cl = 12 if quick else 150
-    ccfgs = configs(rng, n_cl)
+    ccfgs = configs(rng, n_cl, loops=True)
     cl_cases = [dict(client=clients[i % len(clients)], size=rng.randint(0, 3), cfg=ccfgs[i],
                      place=rng.choice(["driver", "main"]), same_sched=rng.random() < 0.3) for i in range(n_cl)]
 
@@ -678,7 +707,8 @@ def main(ck):
     ck.cov["distinct_nontrivial"] = len(nontriv) + len(client_distinct)
     ck.cov["oracle_pairs_equal"] = oracle_pairs
     ck.cov["observed"] = dict(injected_yields=n_yield, timed_out_waits=n_timeout, spurious_cas_failures=n_weakfail,
-                              runs_ending_with_parked_fibers=n_parked, client_runs=client_runs,
+                              runs_ending_with_parked_fibers=n_parked, library_crashes_predicted_by_model=crash_predicted,
+                              client_runs=client_runs,
                               distinct_client_traces=len(client_distinct))
     ck.cov["exhaustive"] = False
     ck.cov["rule"] = ("the library's own seeded engine takes every decision (nothing is explored); inputs are (program, seed, "
